@@ -21,7 +21,7 @@ def handle (prop : String) (args : List String) (impl : String) : R Ans :=
     let T1 := sigma.filterMap fun i => T0[i]?
     -- `compress_kmers_no_exts` discovers the extensions itself
     let keys := T1.map (·.key)
-    let T := if entry == "noexts" then T1.map fun e => { e with exts := discoverExts keys e.key } else T1
+    let T := if entry == "noexts" then T1.map fun e => { e with exts := discoverExts st keys e.key } else T1
     let res := compressKmersC T st join reduce
     let model := s!"{sigmaS}|" ++ (match res with | some ns => showNodes (ns.map (·.1)) | none => "panic")
     -- well-formedness of the request (the property's quantifier): distinct keys of length K, canonical when unstranded
@@ -31,7 +31,8 @@ def handle (prop : String) (args : List String) (impl : String) : R Ans :=
       -- the quantifier of C01/C02: tables whose extensions are reciprocal (every table that comes from reads is;
       -- the malformed stream is compared with the model only); C02 also needs every extension to resolve
       if ¬ wf then pure "skip:malformed-table"
-      else if ¬ extSymOK st T then pure "skip:extensions-not-reciprocal"
+      -- (the table `compress_kmers_no_exts` discovers is no input: it is reciprocal by `noExts_table_ok`, and the crate is held to it)
+      else if entry ≠ "noexts" ∧ ¬ extSymOK st T then pure "skip:extensions-not-reciprocal"
       else if prop == "C02" ∧ ¬ extsPresentOK st T then pure "skip:dangling-extensions"
       else if implNodes == "panic" then
         -- a panic is legitimate only on tables whose extensions are not reciprocal (the model panics too)
@@ -46,6 +47,18 @@ def handle (prop : String) (args : List String) (impl : String) : R Ans :=
                 else if rd ≠ "mix" ∧ ¬ payloadOK K st T reduce ns then "FAIL:payload-is-not-the-reduction-of-the-node's-kmers"
                 else "ok")
     pure { model, verdict }
+  | ["longpath", k, _seed, len, _st, _entry] => do
+    -- a repeat-free read (checked by the harness: all canonical k-mers distinct, none self-complementary): every k-mer has exactly one
+    -- extension on each inner side, so by C02 the whole read is one maximal unbranched path = one node. Too large for the executable
+    -- model: the crate's answer is judged against that statement directly.
+    let K ← nat k; let len ← nat len
+    let f := fun (name : String) => ((impl.splitOn "|").findSome? fun x => if x.startsWith (name ++ "=") then some ((x.drop (name.length + 1)).toString) else none).getD "?"
+    let verdict := if impl == "panic" then "FAIL:panic-in-range"
+      else if f "distinct" ≠ "1" then "ok"
+      else if f "kmers" ≠ toString (len + 1 - K) then "FAIL:table-does-not-hold-every-k-mer-of-the-read"
+      else if f "nodes" ≠ "1" ∨ f "lens" ≠ toString len then s!"FAIL:unbranched-path-of-{len + 1 - K}-k-mers-is-not-one-node"
+      else "ok"
+    pure { model := impl, verdict }
   | _ => throw "bad-request"
 
 end Drv.C01
